@@ -198,7 +198,7 @@ def build(variant='plain'):
     return so, structs
 
 
-def prune(keep=6):
+def prune(keep=16):
     """keep the build cache small"""
     root = os.path.join(env.VERIF, 'build')
     if not os.path.isdir(root):
